@@ -150,7 +150,13 @@ def bev(n, env):
             return a == b
         if op == "Ne":
             return a != b
+        if op in ("Lt", "Le", "Gt", "Ge") and isinstance(a, int) and isinstance(b, int):
+            return {"Lt": a < b, "Le": a <= b, "Gt": a > b, "Ge": a >= b}[op]
         raise Unknown("binop " + op)
+    if k == "mcall" and n.get("m") == "len" and "len" in env:
+        return env["len"]
+    if k == "mcall" and n.get("m") == "is_empty" and "len" in env:
+        return env["len"] == 0
     if k == "if":
         c = bev(n["c"], env)
         if c:
